@@ -422,9 +422,9 @@ func runC13(ctx *Ctx) error {
 			}
 		}
 		switch {
-		case i%12 == 5:
-			sc.fault = []string{"refuse-dial", "bad-y", "short-caps", "bad-connect-text", "truncate", "toolong", "register-refused", "unexpected-frames"}[(i/12)%8]
-			if sc.fault != "unexpected-frames" && sc.fault != "truncate" && sc.fault != "toolong" && sc.fault != "short-caps" {
+		case i%6 == 5:
+			sc.fault = []string{"refuse-dial", "bad-y", "short-caps", "bad-connect-text", "truncate", "toolong", "register-refused", "unexpected-frames", "register-empty", "register-long"}[(i/6)%10]
+			if sc.fault != "unexpected-frames" && sc.fault != "truncate" && sc.fault != "toolong" && sc.fault != "short-caps" && !strings.HasPrefix(sc.fault, "register-") {
 				sc.accept = false
 			}
 		}
@@ -605,6 +605,10 @@ func (sc c13Scenario) run(r Rng) (fails []Failure, reads *c13Reads) {
 		sim.connectText = "*** SOMETHING ELSE\r"
 	case "register-refused":
 		sim.registerData = []byte{0}
+	case "register-empty":
+		sim.registerData = []byte{}
+	case "register-long":
+		sim.registerData = []byte{1, 1}
 	case "y-zero":
 		sim.yZero = true
 	}
@@ -624,9 +628,9 @@ func (sc c13Scenario) run(r Rng) (fails []Failure, reads *c13Reads) {
 		tnc := agwpe.VerifNewTNC(hostConn)
 		defer tnc.Close()
 		port, err := tnc.RegisterPort(int(sc.port), sc.mycall)
-		if sc.fault == "register-refused" {
+		if sc.fault == "register-refused" || sc.fault == "register-empty" || sc.fault == "register-long" {
 			if err == nil {
-				fail("register", "registration answered with 0 (callsign in use) but RegisterPort succeeded")
+				fail("register", "registration answered with %s but RegisterPort succeeded", sc.fault)
 			}
 			return
 		}
